@@ -27,6 +27,9 @@ def check(k, seed):
     defaults = copy.deepcopy(dynamic.AMPYCLOUD_PRMS)
     df, desc = scene(k, seed)
     P = nested_prms(k, seed)
+    if k % 5 == 2:
+        # a misspelt section name: an unknown key whose value is itself a dictionary (ignored with a warning, like any unknown key)
+        P['SLICING_PRM'] = {'dt_scale': 5, 'alpha': 1}
     fails = []
     # "arbitrary prior global contents": every route starts from a global that holds other values for keys the assignment names --
     # in every fourth scene a stale non-null MSA that the assignment sets back to None (null is a documented, legal value)
@@ -85,6 +88,8 @@ def check(k, seed):
         with warnings.catch_warnings():
             warnings.simplefilter('ignore')
             ampycloud.set_prms(pth)
+    if keys(dynamic.AMPYCLOUD_PRMS) != keys(defaults):
+        fails.append('YAML route changed the key structure of the global parameters')
     try:
         if digest_chunk(run_quiet(df)) != dig_a:
             fails.append('YAML route differs from per-call route')
